@@ -75,7 +75,8 @@ class FP2Value:
         assert self.mod == other.mod
 
         a = (self.aC * other.a - self.cC * other.a + self.a * other.aC - self.c * other.aC - self.bC * other.b
-             + self.cC * other.b - self.aC * other.c + self.bC * other.c - self.a * other.cC + self.b * other.cC)
+             + self.cC * other.b - self.b * other.bC + self.c * other.bC - self.aC * other.c + self.bC * other.c
+             - self.a * other.cC + self.b * other.cC)
         b = (self.bC * other.a - self.cC * other.a + self.b * other.aC - self.c * other.aC + self.aC * other.b
              - self.bC * other.b + self.a * other.bC - self.b * other.bC - self.aC * other.c + self.cC * other.c
              - self.a * other.cC + self.c * other.cC)
